@@ -359,6 +359,7 @@ struct WorldGen {
     churn: u64,    // per-mille chance per tick of a spawn / despawn
     mutate: usize, // up to this many entities change per tick
     id_space: u16,
+    neutral_only: bool, // this tick changes nothing but a checksum-neutral pair of words
 }
 impl WorldGen {
     fn spawn(&mut self, r: &mut Rng) {
@@ -376,6 +377,30 @@ impl WorldGen {
         }
     }
     fn step(&mut self, r: &mut Rng) {
+        // a tick whose only change leaves the checksum (a plain wrapping sum of all data words) unchanged:
+        // a delta applied to the wrong base is then NOT caught by the crc, only by comparing the items
+        if self.neutral_only || r.chance(1, 4) {
+            let slots: Vec<(usize, usize)> = self.ents.iter().enumerate().flat_map(|(i, e)| (0..e.data.len()).map(move |j| (i, j))).collect();
+            if slots.len() >= 2 {
+                let a = *r.pick(&slots);
+                let b = *r.pick(&slots);
+                if a != b {
+                    if r.chance(1, 2) {
+                        let (x, y) = (self.ents[a.0].data[a.1], self.ents[b.0].data[b.1]);
+                        self.ents[a.0].data[a.1] = y;
+                        self.ents[b.0].data[b.1] = x;
+                    } else {
+                        let d = r.range(-5, 5) as i32;
+                        self.ents[a.0].data[a.1] = self.ents[a.0].data[a.1].wrapping_add(d);
+                        self.ents[b.0].data[b.1] = self.ents[b.0].data[b.1].wrapping_sub(d);
+                    }
+                }
+                return;
+            }
+            if self.neutral_only {
+                return;
+            }
+        }
         if r.below(1000) < self.churn {
             self.spawn(r);
         }
@@ -826,7 +851,7 @@ fn history(o: &mut Out, r: &mut Rng, p: &Profile, modelled: bool) {
         // a pre-agreed size for a type number in the UUID range: never consulted for a Builder-made item of that size
         table.push((0x4000, ulen as u32));
     }
-    let mut wg = WorldGen { types, ents: vec![], max_ents: p.ents.1, churn: p.churn, mutate: p.mutate, id_space: if p.ents.1 > 200 { 2000 } else { 40 } };
+    let mut wg = WorldGen { types, ents: vec![], max_ents: p.ents.1, churn: p.churn, mutate: p.mutate, id_space: if p.ents.1 > 200 { 2000 } else { 40 }, neutral_only: false };
     for _ in 0..p.ents.0 {
         wg.spawn(r);
     }
@@ -862,12 +887,18 @@ fn history(o: &mut Out, r: &mut Rng, p: &Profile, modelled: bool) {
         fresh_full: 0,
     };
     let send_every = 1 + r.below(3) as usize; // main.rs: every second tick
+    // ack-starved histories: the snapshots right after the acknowledged one often differ from it only in a
+    // checksum-neutral way, and the receiver misses some snapshots (so that it keeps old ones longer than
+    // the sender's 100 newest): a delta taken from a neighbour of the announced base then passes the crc
+    let starved_neutral = p.net == Net::Starved && r.chance(2, 3);
+    let starved_loss = p.net == Net::Starved && r.chance(1, 2);
     for round in 0..p.rounds {
         if run.dead {
             break;
         }
         // the game
         for _ in 0..send_every {
+            wg.neutral_only = starved_neutral && (1..=3).contains(&round);
             wg.step(r);
             if p.big_values {
                 for e in wg.ents.iter_mut() {
@@ -930,8 +961,11 @@ fn history(o: &mut Out, r: &mut Rng, p: &Profile, modelled: bool) {
                 for _ in 0..before {
                     run.step(Label::X(0));
                 }
+                let lose = starved_loss && round > 3 && r.chance(1, 6);
                 for _ in 0..new {
-                    run.step(Label::D(0));
+                    if !lose {
+                        run.step(Label::D(0));
+                    }
                     run.step(Label::X(0));
                 }
                 if round == 0 || r.chance(1, 4) {
